@@ -65,15 +65,34 @@ FAILED = 'org.freedesktop.DBus.Error.Failed'
 
 # --------------------------------------------------------------------------- classes under export
 _CLASSES = {}
+_FIRST_USE = {}         # txdbus.__file__ -> kinds of the process-wide family in the order of their first instantiation
+
+# the harness's own description of the classes (independent of txdbus): readable properties per declared interface
+_ID_PROPS = {ID_IFACE: ['ident']}
+_A_PROPS = {'org.verif.A': ['label', 'level']}
+_B_PROPS = {'org.verif.B': ['count']}
+KIND_READABLE = {
+    'Base': dict(_ID_PROPS),
+    'KA': dict(_ID_PROPS, **_A_PROPS),
+    'KAB': dict(_ID_PROPS, **_A_PROPS, **_B_PROPS),
+    'KABC': dict(_ID_PROPS, **_A_PROPS, **_B_PROPS, **{'org.verif.sub.C': []}),
+    'KDup': dict(_ID_PROPS, **_A_PROPS),
+    'KLen': dict(_ID_PROPS, **_A_PROPS),
+    'KFalse': dict(_ID_PROPS),
+    'KRaise': dict(_ID_PROPS, **_A_PROPS),
+    'KPath': dict(_ID_PROPS, **_A_PROPS),
+}
+# (base class, derived class) pairs of the family: a case of `history-handlers` instantiates one pair first, in either order
+FAMILY_PAIRS = [('Base', 'KA'), ('KA', 'KDup'), ('KA', 'KLen'), ('KAB', 'KABC'), ('Base', 'KFalse'), ('Base', 'KAB'),
+                ('KA', 'KRaise'), ('Base', 'KABC')]
+WARM_VALS = {'label': 'w', 'secret': 0, 'level': 0, 'count': 0}
 
 
-def classes():
-    """DBusObject subclasses built by the harness (after the pipeline selected the repository).
-    kind -> (class, names of the interfaces the harness DECLARED for it, {iface: [readable property names]})"""
-    import txdbus
-    key = txdbus.__file__
-    if key in _CLASSES:
-        return _CLASSES[key]
+def build_classes(variant=0):
+    """A NEW family of DBusObject subclasses (new class objects, new DBusProperty descriptors, new interface objects).
+    kind -> (class, names of the interfaces the harness DECLARED for it, {iface: [readable property names]}).
+    variant > 0: the classes KA and KAB (hence everything derived from them) additionally declare the marker interface
+    `org.verif.V<variant>` - families of different cases share the class NAMES but not what the classes declare."""
     from txdbus import objects
     from txdbus.interface import DBusInterface, Method, Property, Signal
 
@@ -83,6 +102,9 @@ def classes():
                         Property('level', 'i', writeable=True))
     i_b = DBusInterface('org.verif.B', Method('bar', '', 'i'), Property('count', 'x'))
     i_c = DBusInterface('org.verif.sub.C', Method('baz', '', ''))
+    marker = []
+    if variant:
+        marker = [DBusInterface('org.verif.V%d' % variant, Method('mark', '', ''))]
 
     class Base(objects.DBusObject):
         dbusInterfaces = [i_id]
@@ -101,7 +123,7 @@ def classes():
             return str(self._n)
 
     class KA(Base):
-        dbusInterfaces = [i_a]
+        dbusInterfaces = [i_a] + marker
         label = objects.DBusProperty('label')
         secret = objects.DBusProperty('secret')
         level = objects.DBusProperty('level')
@@ -113,7 +135,7 @@ def classes():
             return s
 
     class KAB(Base):
-        dbusInterfaces = [i_a, i_b]
+        dbusInterfaces = [i_a, i_b] + marker
         label = objects.DBusProperty('label')
         secret = objects.DBusProperty('secret')
         level = objects.DBusProperty('level')
@@ -155,21 +177,57 @@ def classes():
         def __bool__(self):
             return False
 
-    id_props = {ID_IFACE: ['ident']}
-    a_props = {'org.verif.A': ['label', 'level']}
-    b_props = {'org.verif.B': ['count']}
-    out = {
-        'Base': (Base, [ID_IFACE], dict(id_props)),
-        'KA': (KA, ['org.verif.A', ID_IFACE], dict(id_props, **a_props)),
-        'KAB': (KAB, ['org.verif.A', 'org.verif.B', ID_IFACE], dict(id_props, **a_props, **b_props)),
-        'KABC': (KABC, ['org.verif.sub.C', 'org.verif.A', 'org.verif.B', ID_IFACE],
-                 dict(id_props, **a_props, **b_props, **{'org.verif.sub.C': []})),
-        'KDup': (KDup, ['org.verif.A', ID_IFACE], dict(id_props, **a_props)),
-        'KLen': (KLen, ['org.verif.A', ID_IFACE], dict(id_props, **a_props)),
-        'KFalse': (KFalse, [ID_IFACE], dict(id_props)),
-    }
-    _CLASSES[key] = out
+    class KRaise(KA):
+        # an object that cannot tell its properties for a while: `_boom` = how many getAllProperties calls still
+        # succeed before one raises (None: all succeed).  Only set by the harness DURING an exportObject call.
+        _boom = None
+
+        def getAllProperties(self, interfaceName):
+            if self._boom is not None:
+                if self._boom <= 0:
+                    raise RuntimeError('the properties cannot be read now')
+                self._boom -= 1
+            return KA.getAllProperties(self, interfaceName)
+
+    class KPath(KA):
+        # an object that reports another (invalid) path for a while.  Only set by the harness DURING an exportObject call.
+        _report = None
+
+        def getObjectPath(self):
+            if self._report is not None:
+                return self._report
+            return KA.getObjectPath(self)
+
+    cls = {'Base': Base, 'KA': KA, 'KAB': KAB, 'KABC': KABC, 'KDup': KDup, 'KLen': KLen, 'KFalse': KFalse,
+           'KRaise': KRaise, 'KPath': KPath}
+    declared = {'Base': [ID_IFACE], 'KA': ['org.verif.A', ID_IFACE], 'KAB': ['org.verif.A', 'org.verif.B', ID_IFACE],
+                'KABC': ['org.verif.sub.C', 'org.verif.A', 'org.verif.B', ID_IFACE], 'KDup': ['org.verif.A', ID_IFACE],
+                'KLen': ['org.verif.A', ID_IFACE], 'KFalse': [ID_IFACE], 'KRaise': ['org.verif.A', ID_IFACE],
+                'KPath': ['org.verif.A', ID_IFACE]}
+    out = {}
+    for kind, c in cls.items():
+        names = list(declared[kind])
+        if marker and kind not in ('Base', 'KFalse'):
+            names.append(marker[0].name)
+        out[kind] = (c, names, dict(KIND_READABLE[kind]))
     return out
+
+
+def classes():
+    """The process-wide family (built once, after the pipeline selected the repository): its classes are used by
+    case after case, so what a class remembers from an earlier case is still there in a later one."""
+    import txdbus
+    key = txdbus.__file__
+    if key not in _CLASSES:
+        _CLASSES[key] = build_classes(0)
+        _FIRST_USE[key] = []
+    return _CLASSES[key]
+
+
+def first_use_order():
+    """Kinds of the process-wide family in the order they were first instantiated in this process."""
+    import txdbus
+    return list(_FIRST_USE.get(txdbus.__file__, []))
 
 
 KINDS = ['Base', 'KA', 'KAB', 'KABC', 'KDup', 'KLen', 'KLen', 'KFalse']
@@ -189,7 +247,7 @@ def value_fits(sig, v):
 
 def expected_props(kind, ident, vals):
     """{declared iface: {readable property: value}} of an object, from the harness's own description."""
-    _, _, readable = classes()[kind]
+    readable = KIND_READABLE[kind]
     allv = dict(vals, ident=ident)
     return {i: {p: allv[p] for p in ps} for i, ps in readable.items()}
 
@@ -279,12 +337,45 @@ def token(ident, name):
 
 
 # --------------------------------------------------------------------------- one scenario on the real code
-class World:
-    """Real handler + the harness's bookkeeping of what the calls so far imply."""
+class Objects:
+    """The instances of one scenario and the harness's description of them.  Instances outlive their exports and
+    belong to no handler: the same instance can be exported on several handlers, unexported and exported again."""
 
-    def __init__(self, client=False):
-        from txdbus import objects
+    def __init__(self, fam=None):
+        self.shared = fam is None
+        self.fam = fam if fam is not None else classes()
+        self.registry = {}      # ident -> (kind, path, expected props of declared ifaces, names from getInterfaces(), sendable)
+        self.objs = {}          # ident -> the instance
+        self.next_ident = 1
+
+    def make(self, path, kind, vals):
+        import txdbus
+        cls = self.fam[kind][0]
+        if self.shared:
+            order = _FIRST_USE.setdefault(txdbus.__file__, [])
+            if kind not in order:
+                order.append(kind)
+        ident = self.next_ident
+        self.next_ident += 1
+        obj = cls(path, ident, vals)
+        self.objs[ident] = obj
+        names = [i.name for i in obj.getInterfaces()]      # the IDBusObject API defines "its interfaces"
+        self.registry[ident] = (kind, path, expected_props(kind, ident, vals), names, sendable(kind, ident, vals))
+        return ident
+
+    def warm(self, kinds):
+        """First use of classes in a chosen order: one instance each (constructed, its properties assigned; never exported)."""
+        for kind in kinds:
+            self.fam[kind][0]('/warm', 0, dict(WARM_VALS))
+
+
+class World:
+    """One real handler (with its connection) + the harness's bookkeeping of what the calls made ON IT imply."""
+
+    def __init__(self, client=False, objects=None, index=None):
+        from txdbus import objects as txobjects
         self.client = client
+        self.index = index      # number of this handler in a scenario with several (None: the only one)
         if client:
             from txdbus import client as cl
             self.proto = cl.DBusClientConnection()
@@ -299,14 +390,16 @@ class World:
             self.take = self.proto.transport.take
         else:
             self.conn = FakeConn()
-            self.h = objects.DBusObjectHandler(self.conn)
+            self.h = txobjects.DBusObjectHandler(self.conn)
             self.api = self.h
             self.take = self.conn.take
-        self.registry = {}      # ident -> (kind, path, expected props of declared ifaces, names from getInterfaces())
-        self.objs = {}          # ident -> the instance
-        self.exported = {}      # path -> ident        (bookkeeping from the calls alone)
-        self.next_ident = 1
-        self.tainted = False    # a defect was reported for this history: the table is known to be wrong
+        self.o = objects if objects is not None else Objects()
+        self.fam = self.o.fam
+        self.registry = self.o.registry
+        self.objs = self.o.objs
+        self.make = self.o.make
+        self.exported = {}      # path -> ident        (bookkeeping from the calls on this handler alone)
+        self.tainted = False    # a defect was reported for this handler: its table is known to be wrong
 
     def remote_view(self, raws):
         """Every message handed to the connection, as a remote peer would decode it."""
@@ -330,27 +423,27 @@ class World:
         return ','.join(items) if items else '[]'
 
     # -- API calls
-    def make(self, path, kind, vals):
-        cls = classes()[kind][0]
-        ident = self.next_ident
-        self.next_ident += 1
-        obj = cls(path, ident, vals)
-        self.objs[ident] = obj
-        names = [i.name for i in obj.getInterfaces()]      # the IDBusObject API defines "its interfaces"
-        self.registry[ident] = (kind, path, expected_props(kind, ident, vals), names, sendable(kind, ident, vals))
-        return ident
-
-    def export_ident(self, ident):
+    def export_ident(self, ident, fail=None):
+        """exportObject(instance `ident`).  `fail`: the object misbehaves DURING this call - ('raise', n): its
+        getAllProperties raises after n good answers; ('path', text): it reports the (invalid) path `text`."""
         obj = self.objs[ident]
         path = self.registry[ident][1]
+        if fail is not None and fail[0] == 'raise':
+            obj._boom = fail[1]
+        if fail is not None and fail[0] == 'path':
+            obj._report = fail[1]
         self.take()
         try:
             self.api.exportObject(obj)
             exc = None
         except Exception as e:       # noqa
             exc = type(e).__name__
+        finally:
+            if fail is not None:
+                obj._boom = None
+                obj._report = None
         sent = self.remote_view(self.take())
-        if self.registry[ident][4]:
+        if self.registry[ident][4] and fail is None:
             self.exported[path] = ident          # a failed export call implies nothing
         return ident, exc, sent
 
@@ -483,22 +576,38 @@ def spec_below(p, exported):
     return sorted(q for q in exported if strictly_below(p, q))
 
 
-def content_ok(reg, got):
+def content_ok(fam, reg, got):
     """`got` = {iface: props} reported for the object `reg`: exactly the interfaces getInterfaces() names,
     among them every interface the harness declared, each declared one with exactly its readable properties."""
     kind, _, props, names, _ = reg
     if set(got.keys()) != set(names):
         return False
-    if not set(classes()[kind][1]) <= set(got.keys()):
+    if not set(fam[kind][1]) <= set(got.keys()):
         return False
     return all(got[i] == props[i] for i in props)
+
+
+_CASE_NO = {}           # id(history) -> number of the case in this process (see `stabilise`)
+
+
+def case_input(hist, step_no, query, world=None):
+    """The input of a finding: everything a replay needs to run the same case up to this step."""
+    inp = {'universe': hist['universe'], 'ops': hist['ops'][:step_no], 'query': query}
+    for k in ('handlers', 'fresh', 'variant', 'first', 'warm'):
+        if hist.get(k):
+            inp[k] = hist[k]
+    if world is not None and world.index is not None:
+        inp['on'] = world.index
+    if id(hist) in _CASE_NO:
+        inp['case'] = _CASE_NO[id(hist)]
+    return inp
 
 
 def judge_query(ctx, world, hist, step_no, kind, path, obs, call_desc):
     if world.tainted:
         return
     exported = world.exported
-    inp = {'universe': hist['universe'], 'ops': hist['ops'][:step_no], 'query': [kind, path] + call_desc}
+    inp = case_input(hist, step_no, [kind, path] + call_desc, world)
     if 'raised' in obs:
         ctx.violation('call-raises', 'handleMethodCallMessage raises instead of answering (%s)' % obs['raised'],
                       inp, observed=obs, expected='one reply')
@@ -558,7 +667,7 @@ def judge_query(ctx, world, hist, step_no, kind, path, obs, call_desc):
             return
         for k in below:
             reg = world.registry[exported[k]]
-            if not content_ok(reg, got[k]):
+            if not content_ok(world.fam, reg, got[k]):
                 ctx.violation('managed-objects-content',
                               'an object reported by GetManagedObjects lacks interfaces or readable properties',
                               inp, observed={k: got[k]}, expected={k: reg[2], 'interfaces': reg[3]})
@@ -580,17 +689,22 @@ def judge_query(ctx, world, hist, step_no, kind, path, obs, call_desc):
                               inp, observed=obs, expected=[str(exported[path])])
 
 
-def judge_step(ctx, world, hist, step_no, op, result):
+def judge_step(ctx, world, hist, step_no, op, result, is_export=None, path=None, failing=False):
     """Each export / unexport announces itself with exactly one signal naming path and interfaces; a call
-    that fails implies nothing: it is silent and without effect."""
+    that fails implies nothing: it is silent and without effect.  `failing`: the object misbehaved during the call
+    (its getAllProperties raised / it reported an invalid path), so no announcement can exist."""
     from txdbus import message
     if world.tainted:
         return
-    inp = {'universe': hist['universe'], 'ops': hist['ops'][:step_no], 'query': ['signals']}
+    inp = case_input(hist, step_no, ['signals'], world)
     ident_or_was, exc, sent = result
-    if op[0] in ('export', 'reexport'):
+    if is_export is None:
+        is_export = op[0] in ('export', 'reexport')
+    if path is None and not is_export:
+        path = op[1]
+    if is_export:
         reg = world.registry[ident_or_was]
-        if not reg[4]:
+        if not reg[4] or failing:
             # the object's readable properties cannot be sent: no InterfacesAdded can exist, so the export
             # cannot have happened - the call has to fail and the object must not be visible
             if sent:
@@ -599,7 +713,8 @@ def judge_step(ctx, world, hist, step_no, op, result):
                 world.tainted = True
                 return
             _, rep = world.call(reg[1], ID_IFACE, 'whoami')
-            if len(rep) == 1 and isinstance(rep[0], message.MethodReturnMessage) and rep[0].body == [str(ident_or_was)]:
+            if (len(rep) == 1 and isinstance(rep[0], message.MethodReturnMessage) and rep[0].body == [str(ident_or_was)]
+                    and world.exported.get(reg[1]) != ident_or_was):
                 ctx.violation('failed-export-stays-visible',
                               'exportObject raised and announced nothing, yet the object answers calls at its path',
                               inp, observed={'raised': exc, 'sent': 0, 'whoami': rep[0].body}, expected='not exported')
@@ -610,7 +725,7 @@ def judge_step(ctx, world, hist, step_no, op, result):
               and sent[0].member == 'InterfacesAdded'
               and sent[0].interface == 'org.freedesktop.DBus.ObjectManager'
               and len(sent[0].body) == 2 and sent[0].body[0] == reg[1]
-              and set(sent[0].body[1].keys()) == want and set(classes()[reg[0]][1]) <= want)
+              and set(sent[0].body[1].keys()) == want and set(world.fam[reg[0]][1]) <= want)
         if not ok:
             ctx.violation('export-signal-wrong',
                           'exportObject does not announce itself with one InterfacesAdded naming the path and the interfaces',
@@ -627,12 +742,12 @@ def judge_step(ctx, world, hist, step_no, op, result):
         ok = (exc is None and len(sent) == 1 and isinstance(sent[0], message.SignalMessage)
               and sent[0].member == 'InterfacesRemoved'
               and sent[0].interface == 'org.freedesktop.DBus.ObjectManager'
-              and len(sent[0].body) == 2 and sent[0].body[0] == op[1]
+              and len(sent[0].body) == 2 and sent[0].body[0] == path
               and set(sent[0].body[1]) == want)
         if not ok:
             ctx.violation('unexport-signal-wrong',
                           'unexportObject does not announce itself with one InterfacesRemoved naming the path and the interfaces',
-                          inp, observed=canon_signals(world, exc, sent), expected=['InterfacesRemoved', op[1], sorted(want)])
+                          inp, observed=canon_signals(world, exc, sent), expected=['InterfacesRemoved', path, sorted(want)])
 
 
 # --------------------------------------------------------------------------- generators
@@ -762,19 +877,69 @@ def call_line(iface, member, path):
     return 'call %s %s %s' % (hx(iface) if iface is not None else 'none', hx(member), hx(path))
 
 
-def export_line(world, ident):
-    kind, path, _, names, ok = world.registry[ident]
-    return 'export %s %d %s' % (hx(path), 1 if ok else 0, ' '.join('%s=%d' % (hx(n), token(ident, n)) for n in names))
+def export_line(world, ident, ok=None, path=None):
+    kind, opath, _, names, good = world.registry[ident]
+    if ok is None:
+        ok = good
+    return 'export %s %d %s' % (hx(opath if path is None else path), 1 if ok else 0,
+                                ' '.join('%s=%d' % (hx(n), token(ident, n)) for n in names))
+
+
+def query_all(ctx, stream, world, hist, step_no, queries, lines, expect, judge, rot):
+    """Every path of the query set on one handler: Introspect, GetManagedObjects, whoami; for a rotating part of
+    the paths other shapes of ordinary calls and Ping.  -> (answers from a non-empty table, rot)"""
+    nonempty_answers = 0
+    for qi, path in enumerate(queries):
+        for kind, iface, member in (('introspect', BUILTIN[0], 'Introspect'),
+                                    ('managed', BUILTIN[2], 'GetManagedObjects'),
+                                    ('whoami', ID_IFACE, 'whoami')):
+            exc, sent = world.call(path, iface, member)
+            line, obs = observe(world, kind, path, exc, sent)
+            lines.append(call_line(iface, member, path))
+            expect.append((stream, hist, step_no, [kind, path], line, world.index))
+            ctx.stat('answer=%s/%s' % (kind, line.split(' ', 1)[0]))
+            if world.exported:
+                nonempty_answers += 1
+            if judge:
+                judge_query(ctx, world, hist, step_no, kind, path, obs, [])
+        # a rotating part of the paths: other shapes of ordinary calls (no interface, unknown member,
+        # members NAMED like a built-in on other interfaces) and Ping
+        if (qi + step_no) % 5 == 0:
+            exc, sent = world.call(path, None, 'whoami')
+            line, obs = observe(world, 'whoami', path, exc, sent)
+            lines.append(call_line(None, 'whoami', path))
+            expect.append((stream, hist, step_no, ['whoami-noiface', path], line, world.index))
+            if judge:
+                judge_query(ctx, world, hist, step_no, 'whoami', path, obs, ['no interface'])
+            iface, member = ID_LIKE[rot % len(ID_LIKE)]
+            rot += 1
+            exc, sent = world.call(path, iface, member)
+            line, obs = observe(world, 'ordinary', path, exc, sent)
+            lines.append(call_line(iface, member, path))
+            expect.append((stream, hist, step_no, ['ordinary', path, iface, member], line, world.index))
+            ctx.stat('ordinary=%s.%s' % ((iface or '').rsplit('.', 1)[-1], member))
+            if judge:
+                judge_query(ctx, world, hist, step_no, 'ordinary', path, obs, [iface, member])
+            exc, sent = world.call(path, BUILTIN[1], 'Ping')
+            line, obs = observe(world, 'ping', path, exc, sent)
+            lines.append(call_line(BUILTIN[1], 'Ping', path))
+            expect.append((stream, hist, step_no, ['ping', path], line, world.index))
+            if judge and 'raised' in obs:
+                judge_query(ctx, world, hist, step_no, 'ping', path, obs, [])
+    return nonempty_answers, rot
 
 
 def run_history(ctx, stream, hist, lines, expect, judge=True, client=False):
     """Apply hist on the real code, query everything after every step; append the driver lines to
-    `lines` and (stream, hist, step, what, canonical implementation line) to `expect`."""
-    world = World(client=client)
+    `lines` and (stream, hist, step, what, canonical implementation line, handler) to `expect`."""
+    objs = Objects()
+    if hist.get('warm'):
+        objs.warm(hist['warm'])     # a replay: the first-use order of the process the finding was made in
+    world = World(client=client, objects=objs)
     universe = hist['universe']
     queries = list(universe) + list(hist.get('neighbours', []))
     lines.append('reset')
-    expect.append((stream, hist, 0, ['reset'], 'ok'))
+    expect.append((stream, hist, 0, ['reset'], 'ok', None))
     nonempty_answers = 0
     rot = 0
     for step_no, op in enumerate(hist['ops'], 1):
@@ -795,52 +960,17 @@ def run_history(ctx, stream, hist, lines, expect, judge=True, client=False):
             res = world.unexport(op[1])
             lines.append('unexport ' + hx(op[1]))
             ctx.stat('op=unexport' + ('' if res[0] is not None else '-not-exported'))
-        expect.append((stream, hist, step_no, ['signals'], canon_signals(world, res[1], res[2])))
+        expect.append((stream, hist, step_no, ['signals'], canon_signals(world, res[1], res[2]), None))
         if judge:
             judge_step(ctx, world, hist, step_no, op, res)
         world.churn(step_no)
         ctx.stat('falsy-exported=%d' % min(3, sum(1 for i in world.exported.values() if not world.objs[i])))
         # the table itself
         lines.append('keys')
-        expect.append((stream, hist, step_no, ['keys'], 'keys ' + strs(list(world.h.exports.keys()))))
+        expect.append((stream, hist, step_no, ['keys'], 'keys ' + strs(list(world.h.exports.keys())), None))
         ctx.stat('exported=%02d' % min(len(world.exported), 12))
-        for qi, path in enumerate(queries):
-            for kind, iface, member in (('introspect', BUILTIN[0], 'Introspect'),
-                                        ('managed', BUILTIN[2], 'GetManagedObjects'),
-                                        ('whoami', ID_IFACE, 'whoami')):
-                exc, sent = world.call(path, iface, member)
-                line, obs = observe(world, kind, path, exc, sent)
-                lines.append(call_line(iface, member, path))
-                expect.append((stream, hist, step_no, [kind, path], line))
-                ctx.stat('answer=%s/%s' % (kind, line.split(' ', 1)[0]))
-                if world.exported:
-                    nonempty_answers += 1
-                if judge:
-                    judge_query(ctx, world, hist, step_no, kind, path, obs, [])
-            # a rotating part of the paths: other shapes of ordinary calls (no interface, unknown member,
-            # members NAMED like a built-in on other interfaces) and Ping
-            if (qi + step_no) % 5 == 0:
-                exc, sent = world.call(path, None, 'whoami')
-                line, obs = observe(world, 'whoami', path, exc, sent)
-                lines.append(call_line(None, 'whoami', path))
-                expect.append((stream, hist, step_no, ['whoami-noiface', path], line))
-                if judge:
-                    judge_query(ctx, world, hist, step_no, 'whoami', path, obs, ['no interface'])
-                iface, member = ID_LIKE[rot % len(ID_LIKE)]
-                rot += 1
-                exc, sent = world.call(path, iface, member)
-                line, obs = observe(world, 'ordinary', path, exc, sent)
-                lines.append(call_line(iface, member, path))
-                expect.append((stream, hist, step_no, ['ordinary', path, iface, member], line))
-                ctx.stat('ordinary=%s.%s' % ((iface or '').rsplit('.', 1)[-1], member))
-                if judge:
-                    judge_query(ctx, world, hist, step_no, 'ordinary', path, obs, [iface, member])
-                exc, sent = world.call(path, BUILTIN[1], 'Ping')
-                line, obs = observe(world, 'ping', path, exc, sent)
-                lines.append(call_line(BUILTIN[1], 'Ping', path))
-                expect.append((stream, hist, step_no, ['ping', path], line))
-                if judge and 'raised' in obs:
-                    judge_query(ctx, world, hist, step_no, 'ping', path, obs, [])
+        ne, rot = query_all(ctx, stream, world, hist, step_no, queries, lines, expect, judge, rot)
+        nonempty_answers += ne
     ctx.impl_trace()
     return nonempty_answers
 
@@ -864,7 +994,7 @@ def compare(ctx, lines, expect):
     if out is None:
         return
     seen = set()
-    for (stream, hist, step_no, what, impl), m in zip(expect, out):
+    for (stream, hist, step_no, what, impl, on), m in zip(expect, out):
         if impl == 'dispatch' and m.startswith('dispatch '):
             m = 'dispatch'
         if canon_line(m) != canon_line(impl):
@@ -872,8 +1002,10 @@ def compare(ctx, lines, expect):
             if key in seen:
                 continue
             seen.add(key)
-            ctx.disagree(stream, {'universe': hist['universe'], 'ops': hist['ops'][:step_no], 'query': what},
-                         m, impl)
+            inp = case_input(hist, step_no, what)
+            if on is not None:
+                inp['on'] = on
+            ctx.disagree(stream, inp, m, impl)
 
 
 def make_hist(universe, ops, rng=None):
